@@ -1,4 +1,5 @@
 import RedisVerif.Lemmas.RedisStep
+import RedisVerif.Lemmas.RedisX
 
 /-!
 # C17 — a failing command changes nothing; a read-only command changes nothing
@@ -111,6 +112,67 @@ theorem msetnx_all_or_nothing (s : State) (now : Nat) (kvs : List (Nat × BS))
     exact view_purge s now
   · simp at h
 
+/-! ## scripts (EVAL of a sequence of `redis.call`s)
+
+The property text quantifies over "the full command set (including … scripts)".  For a script the
+statement is FALSE — in Redis itself and in /repo alike: a `redis.call` that fails after an earlier
+call has written aborts the script, EVAL replies with the error, and the earlier write stays (no
+rollback).  Full statement, counterexample, and the part that does hold. -/
+
+/-- full statement for scripts -/
+def C17_script_error_is_noop : Prop :=
+  ∀ (s : State) (now : Nat) (cs : List Cmd),
+    (stepScript s now cs).2.isError = true → view (stepScript s now cs).1 now = view s now
+
+/-- `EVAL "redis.call('SET','a','x'); redis.call('INCR','l')"` with `l` a list: WRONGTYPE, and `a` is set -/
+theorem script_error_counterexample : ¬ C17_script_error_is_noop := by
+  intro h
+  have := h [(2, ⟨.list [[120]], none⟩)] 1000 [.set 1 [120] .always .none false, .incr 2] (by decide)
+  revert this
+  decide
+
+/-- every call that ran before the failing one (or all of them, if none fails) is read-only -/
+def prefixReadOnly (s : State) (now : Nat) : List Cmd → Bool
+  | [] => true
+  | c :: cs =>
+    match (step s now c).2 with
+    | .err _ => true
+    | _ => isReadOnly c && prefixReadOnly (step s now c).1 now cs
+
+/-- what holds: the failing call itself contributes nothing, so a script whose calls before the
+    failing one only read leaves the visible keyspace unchanged — whether it fails or not -/
+theorem script_error_is_noop_partial (s : State) (now : Nat) (cs : List Cmd)
+    (h : prefixReadOnly s now cs = true) : view (stepScript s now cs).1 now = view s now := by
+  induction cs generalizing s with
+  | nil => rfl
+  | cons c cs ih =>
+    simp only [stepScript]
+    simp only [prefixReadOnly] at h
+    split
+    · rename_i e he
+      exact error_is_noop s now c (by rw [he]; rfl)
+    · rename_i hne
+      split at h
+      · rename_i e he; exact absurd he (hne e)
+      · simp only [Bool.and_eq_true] at h
+        rw [ih _ h.2]
+        exact readonly_is_noop s now c h.1
+
+/-- the failing call leaves the state of the calls before it: a script that fails at its FIRST
+    call changes nothing -/
+theorem script_first_call_error_is_noop (s : State) (now : Nat) (c : Cmd) (cs : List Cmd)
+    (he : (step s now c).2.isError = true) :
+    (stepScript s now (c :: cs)).2 = (step s now c).2 ∧
+    view (stepScript s now (c :: cs)).1 now = view s now := by
+  simp only [stepScript]
+  cases hr : (step s now c).2 with
+  | err e => exact ⟨rfl, error_is_noop s now c he⟩
+  | _ => rw [hr] at he; cases he
+
+-- non-vacuity: a script that reads, then fails
+example : prefixReadOnly [(2, ⟨.list [[120]], none⟩)] 1000 [.llen 2, .incr 2, .del [2]] = true := by decide
+example : (stepScript [(2, ⟨.list [[120]], none⟩)] 1000 [.llen 2, .incr 2, .del [2]]).2 = .err .wrongType := by decide
+
 /-! ## non-vacuity: concrete failing commands in a state with mixed types and a deadline -/
 
 /-- a = "10" (deadline 2000), b = list ["x"], c = "abc" -/
@@ -157,5 +219,21 @@ example : (step st0 1000 (.ttl 1)).2 = .int 1 := by decide
 example : (step st0 1000 (.mget [1, 2, 3])).2 = .arr [.bulk [49, 48], .nil, .bulk [97, 98, 99]] := by decide
 -- …and a non-failing write DOES change the view, so `view` is not blind
 example : view (step st0 1000 (.incr 1)).1 1000 ≠ view st0 1000 := by decide
+
+/-! ## the commands outside `Cmd` (`Model/RedisX.lean`: SETBIT / GETBIT, BatchSet / BatchGet, KEYS pattern) -/
+
+theorem x_error_is_noop (s : State) (now : Nat) (c : RedisX.XCmd)
+    (he : (RedisX.stepX s now c).2.isError = true) : view (RedisX.stepX s now c).1 now = view s now := by
+  unfold RedisX.stepX at *
+  rw [RedisX.execX_err he, view_purge]
+
+theorem x_readonly_is_noop (s : State) (now : Nat) (c : RedisX.XCmd)
+    (hr : RedisX.isReadOnlyX c = true) : view (RedisX.stepX s now c).1 now = view s now := by
+  unfold RedisX.stepX
+  rw [RedisX.execX_ro hr, view_purge]
+
+-- BatchGet is not classified read-only by `Command::is_read_only` although it only reads
+example : RedisX.isReadOnlyX (.batchget [1, 2]) = false := rfl
+example : (RedisX.stepX st0 1000 (.setbit 2 3 1)).2 = .err .wrongType := by decide
 
 end RedisVerif.C17
